@@ -20,6 +20,141 @@ static std::string cmdNameMatch(const std::vector<std::string>& a) {
 	return w.s;
 }
 
+void registerValueCmds2();
 void registerValueCmds() {
 	cmdTable()["namematch"] = cmdNameMatch;
+	registerValueCmds2();
+}
+
+// ---- Data tree wire format (python -> worker): a<t><len>:<bytes>  A<n> items  M<n> (<len>:<key> value)* ----
+static size_t rdNum(const std::string& s, size_t& p, char term) {
+	size_t n = 0;
+	while (p < s.size() && s[p] != term) { n = n * 10 + (s[p] - '0'); p++; }
+	p++;
+	return n;
+}
+
+static Data rdTree(const std::string& s, size_t& p) {
+	Data d;
+	char k = s[p++];
+	if (k == 'a') {
+		char t = s[p++];
+		size_t len = rdNum(s, p, ':');
+		d.atom = s.substr(p, len);
+		p += len;
+		d.type = (t == 'v' ? Data::VERBATIM : Data::INTERPRETED);
+	} else if (k == 'A') {
+		size_t n = rdNum(s, p, ';');
+		for (size_t i = 0; i < n; i++) d.array.push_back(rdTree(s, p));
+	} else if (k == 'M') {
+		size_t n = rdNum(s, p, ';');
+		for (size_t i = 0; i < n; i++) {
+			size_t len = rdNum(s, p, ':');
+			std::string key = s.substr(p, len);
+			p += len;
+			d.compound[key] = rdTree(s, p);
+		}
+	}
+	return d;
+}
+
+Data treeFromWire(const std::string& s) {
+	size_t p = 0;
+	return rdTree(s, p);
+}
+
+// jsonrt: tree -> {"json": text, "in": dump, "out": dump, "equal": Data::operator==}
+static std::string cmdJsonRT(const std::vector<std::string>& a) {
+	JW w;
+	w.beginObj();
+	Data d = treeFromWire(a.at(1));
+	std::string json = Data::toJSON(d);
+	w.key("json").str(json);
+	w.key("in"); dumpData(w, d, 0);
+	try {
+		Data back = Data::fromJSON(json);
+		w.key("out"); dumpData(w, back, 0);
+		w.key("equal").boolean(back == d);
+		// second trip must be a fixed point
+		std::string json2 = Data::toJSON(back);
+		w.key("json2equal").boolean(json2 == json);
+	} catch (Event& e) {
+		std::stringstream ss; ss << e.data;
+		w.key("exception").str(e.name + ": " + ss.str());
+	}
+	w.endObj();
+	return w.s;
+}
+
+// jsonparse: bytes -> {"ok":bool, "out": dump, "idem": bool} ; never crashes / hangs
+static std::string cmdJsonParse(const std::vector<std::string>& a) {
+	JW w;
+	w.beginObj();
+	try {
+		Data d = Data::fromJSON(a.at(1));
+		w.key("ok").boolean(true);
+		w.key("empty").boolean(d.empty());
+		w.key("out"); dumpData(w, d, 0);
+		if (!d.empty()) {
+			std::string json = Data::toJSON(d);
+			Data back = Data::fromJSON(json);
+			w.key("json").str(json);
+			w.key("idem").boolean(back == d);
+			w.key("back"); dumpData(w, back, 0);
+		}
+	} catch (Event& e) {
+		w.key("ok").boolean(false);
+		w.key("exception").str(e.name);
+	}
+	w.endObj();
+	return w.s;
+}
+
+static void dumpEvent(JW& w, const Event& e) {
+	w.beginObj();
+	w.key("name").str(e.name).key("eventType").num(e.eventType).key("origin").str(e.origin).key("origintype").str(e.origintype);
+	w.key("sendid").str(e.sendid).key("hideSendId").boolean(e.hideSendId).key("invokeid").str(e.invokeid).key("raw").str(e.raw);
+	w.key("data"); dumpData(w, e.data, 0);
+	w.key("namelist").beginObj();
+	for (auto& kv : e.namelist) { w.key(kv.first); dumpData(w, kv.second, 0); }
+	w.endObj();
+	w.key("params").beginArr();
+	for (auto& kv : e.params) { w.beginArr().str(kv.first); dumpData(w, kv.second, 0); w.endArr(); }
+	w.endArr();
+	w.endObj();
+}
+
+// eventrt: name, eventType, origin, origintype, sendid, invokeid, raw, dataTree, namelistTree(M), paramsTree(A of M1) [, "json"]
+static std::string cmdEventRT(const std::vector<std::string>& a) {
+	JW w;
+	w.beginObj();
+	Event e(a.at(1), (Event::Type)atoi(a.at(2).c_str()));
+	e.origin = a.at(3); e.origintype = a.at(4); e.sendid = a.at(5); e.invokeid = a.at(6); e.raw = a.at(7);
+	e.data = treeFromWire(a.at(8));
+	Data nl = treeFromWire(a.at(9));
+	e.namelist = nl.compound;
+	Data ps = treeFromWire(a.at(10));
+	for (auto& p : ps.array) {
+		if (!p.compound.empty()) e.params.insert(std::make_pair(p.compound.begin()->first, p.compound.begin()->second));
+	}
+	bool viaJson = a.size() > 11 && a[11] == "json";
+	w.key("in"); dumpEvent(w, e);
+	try {
+		Data d = (Data)e;
+		if (viaJson) d = Data::fromJSON(Data::toJSON(d));
+		Event back = Event::fromData(d);
+		w.key("out"); dumpEvent(w, back);
+		w.key("equal").boolean(back == e);
+	} catch (Event& ex) {
+		w.key("exception").str(ex.name);
+	}
+	w.endObj();
+	return w.s;
+}
+
+static struct RegMore { RegMore() {} } regMore;
+void registerValueCmds2() {
+	cmdTable()["jsonrt"] = cmdJsonRT;
+	cmdTable()["jsonparse"] = cmdJsonParse;
+	cmdTable()["eventrt"] = cmdEventRT;
 }
